@@ -100,7 +100,12 @@ LatchMore == {
   P("latchx", <<InS, InR, SIn("d", "signal-M", 5), SIn("e", "signal-E", 0), Mem("l", TL), Mem("m", "signal-M"), La("set_reset", Num(1), Bin(">", S, Num(0)), Bin(">", R, Num(0))),
                 Wr("m", D, Bin(">", E, Num(0))), Rd("o", "l"), Rd("p", "m")>>, <<0, 1, 5>>)
  }
-Cells == Cell1 \cup Shared \cup Readers \cup Two \cup CellSameType \cup SameEnable \cup EarlyReaders
+\* a reader that combines the cell with ANOTHER source of the cell's own signal type (not the cell's data): the cell's
+\* feedback wire has a fixed colour, the other source must go on the other one
+InD2 == SIn("d", "signal-D", 5)
+Foreign == {P("foreign", <<InD2, InX, InE, Mem("m", TM), Wr("m", Proj(D, TName(TM)), Bin(">", E, Num(0))), Rd("o", "m"), SLet("Signal", "p", v)>>, <<-3, 0, 1, 5>>) :
+              v \in {Bin("*", ReadE("m"), X), Bin("-", X, ReadE("m")), CondE(Bin(">", ReadE("m"), X), Num(1))}}
+Cells == Cell1 \cup Shared \cup Readers \cup Two \cup CellSameType \cup SameEnable \cup EarlyReaders \cup Foreign
 Latches == LatchTwo \cup LatchOne \cup LatchMore \cup LatchSameType
 ASSUME PrintT(<<"NPROGS", Cardinality(Cells), Cardinality(Latches)>>)
 ASSUME JsonSerialize(IOEnv.GEN_OUT, SetToSeq(Cells \cup Latches))
